@@ -25,13 +25,12 @@ class Backend:
         self.use_environ = use_environ
         self._module = None
 
-        # Split out api (if present).
-        if api:
-            self.api = api
-        elif self.name and '/' in self.name:
-            self.name, self.api = self.name.split('/', 1)
-        else:
-            self.api = None
+        # Split out api (if present). An explicit api argument wins
+        # over the one in the name.
+        name_api = None
+        if self.name and '/' in self.name:
+            self.name, name_api = self.name.split('/', 1)
+        self.api = api or name_api or None
 
         if load:
             self.load()
